@@ -136,6 +136,21 @@ impl TlsRecordsParser {
     }
 }
 
+#[cfg(tls_parser_verif)]
+impl TlsRecordsParser {
+    /// Verification hook: read-only view of the defragmentation buffer
+    #[doc(hidden)]
+    pub fn verif_defrag_buffer(&self) -> &[u8] {
+        &self.record_defrag_buffer
+    }
+
+    /// Verification hook: record type of the defragmentation in progress
+    #[doc(hidden)]
+    pub fn verif_current_record_type(&self) -> Option<TlsRecordType> {
+        self.current_record_type
+    }
+}
+
 #[cfg(test)]
 mod tests {
     use crate::{parse_tls_raw_record, TlsMessageHandshake, TlsVersion};
